@@ -3,7 +3,7 @@
 # pylint: disable=too-many-locals
 
 import traceback
-from copy import deepcopy
+from copy import copy, deepcopy
 from typing import Iterable, List, Optional, Union
 
 import numpy as np
@@ -67,14 +67,13 @@ class ColumnBackend(ArraySchemaBackend):
             )
 
         def validate_column(check_obj, column_name, return_check_obj=False):
-            # make sure the schema component mutations are reverted after
-            # validation, also when validation raises
-            _orig_name = schema.name
             try:
                 # pylint: disable=super-with-arguments
+                # validate with a renamed shallow copy: the schema component
+                # itself (possibly shared with other threads) is not modified
                 validated_check_obj = super(ColumnBackend, self).validate(
                     check_obj,
-                    schema.set_name(column_name),
+                    copy(schema).set_name(column_name),
                     head=head,
                     tail=tail,
                     sample=sample,
@@ -97,9 +96,6 @@ class ColumnBackend(ArraySchemaBackend):
                 error_handler.collect_error(
                     validation_type(err.reason_code), err.reason_code, err
                 )
-            finally:
-                # revert the schema component mutations
-                schema.name = _orig_name
 
         column_keys_to_check = (
             self.get_regex_columns(schema, check_obj)
